@@ -34,7 +34,7 @@ def main():
         chk.notes["lazy_protocol_counterexample"] = r2.violation or "none found"
     # the real code under the race detector
     exe = vlib.build_harness(race=True)
-    rounds = 2 if quick else 60
+    rounds = 2 if quick else 10
     gfile = os.path.join(wd, "groups.ndjson")
     p = subprocess.run([exe, "conc", "-rounds", str(rounds), "-groups", gfile], capture_output=True, text=True, timeout=3000, env=dict(vlib.GOENV, GORACE="halt_on_error=0 history_size=5"))
     races = p.stderr.count("WARNING: DATA RACE")
